@@ -11,7 +11,7 @@ CLAIMS = {
         "technique": T_PROOF,
     },
     "C02": {
-        "text": "Proved for ALL finite operand pairs below 2^1023 at full 53-bit width: fast_two_sum (under its precondition), new_add and new_sub return hi == RN(a+-b), a valid pair, and hi + lo == a +- b exactly - one obligation per difference of the exponent fields (-56..56), two far cases, zero-operand case and a coverage lemma (thorough: 297 obligations, all discharged; quick: far/zero cases + 2 seeded gaps per function). new_mul: hi == RN(ab) for all pairs (quick) and valid whenever ab is 0 or in [2^-960, 2^1023) (thorough). from_f64/From<f64> exact. new_div: bit-identical to Algorithm 15 and valid (under C05/C01). NOT decided: hi + lo == ab exactly for new_mul (2Prod theorem, assumed) and the 3*2^-106 bound of new_div at full width.",
+        "text": "Proved for ALL finite operand pairs below 2^1023 at full 53-bit width: fast_two_sum (under its precondition), new_add and new_sub return hi == RN(a+-b), a valid pair, and hi + lo == a +- b exactly - one obligation per difference of the exponent fields (-56..56), two far cases, zero-operand case and a coverage lemma (thorough: 297 obligations, all discharged; quick: far/zero cases + 2 seeded gaps per function). new_mul: hi == RN(ab) for all pairs, bit-identical to 2Prod (RN(ab), fma(a,b,-RN(ab))), and hi + lo == ab EXACTLY for every finite pair (subnormal operands included) whose rounded product is non-zero and in [2^-960, 2^1023) - the 2Prod theorem proved at full 53-bit width against an integer product of the significands (quick, 5 min); valid in that domain (thorough). from_f64/From<f64> exact. new_div: bit-identical to Algorithm 15 and valid (under C05/C01). NOT decided: the 3*2^-106 bound of new_div at full width (rests on the assumed theorem for Alg. 15).",
         "note": TB + "Exactness is stated by a gap-anchored integer window predicate that is sufficient for real-number equality by construction (lemma exact_cases_are_contract ties the per-gap predicates to the contract's predicate); natively every counterexample is judged by exact 2432-bit fixed-point arithmetic.",
         "technique": T_PROOF + "; leaf obligations case-split on the exponent gap",
     },
@@ -21,8 +21,8 @@ CLAIMS = {
         "technique": T_MITER,
     },
     "C04": {
-        "text": "Proved for all operand word patterns: the five * bodies are bit-identical to Alg. 9 (DWTimesFP3) / Alg. 12 (DWTimesDW3) over new_mul, fast_two_sum and the fma primitive; proved for valid in-range operands: zero factor => (0,0), x*(+-1) == +-x in every spelling, x*2^k exact when lo*2^k does not underflow; results valid (C01). The 2u^2 / 5u^2 bounds follow from the published theorems (assumed lemma) given that new_mul is 2Prod (hi == RN(ab) proved; exactness of the fma remainder assumed). Model-agreement obligation: corrected fma model == hardware fma on 240 seeded triples.",
-        "note": TB + "Assumed lemmas: error bounds of Alg. 9 / Alg. 12; 2Prod exactness. CBMC's fma is wrong for an exact-zero factor with a large-exponent cofactor (found here, reproduced standalone); value obligations install a corrected model, miters are insensitive to the model.",
+        "text": "Proved for all operand word patterns: the five * bodies are bit-identical to Alg. 9 (DWTimesFP3) / Alg. 12 (DWTimesDW3) over new_mul, fast_two_sum and the fma primitive; proved for valid in-range operands: zero factor => (0,0), x*(+-1) == +-x in every spelling, x*2^k exact when lo*2^k does not underflow; results valid (C01). The 2u^2 / 5u^2 bounds follow from the published theorems (assumed lemma) given that new_mul is an exact 2Prod (proved: hi == RN(ab) and hi + lo == ab exactly, all inputs of the domain). Model-agreement obligation: corrected fma model == hardware fma on 240 seeded triples.",
+        "note": TB + "Assumed lemmas: error bounds of Alg. 9 / Alg. 12. CBMC's fma is wrong for an exact-zero factor with a large-exponent cofactor (found here, reproduced standalone); value obligations install a corrected model, miters are insensitive to the model.",
         "technique": T_MITER,
     },
     "C05": {
@@ -110,9 +110,9 @@ NOT_CLAIMED = {}
 
 META = {
     "C01": {"undecided_clauses": ["f64/TwoFloat, TwoFloat/TwoFloat, /= TwoFloat, recip, %, div_euclid, rem_euclid validity", "elementary functions validity", "induction over arbitrary call sequences"], "assumed_lemmas": []},
-    "C02": {"undecided_clauses": ["new_mul: hi + lo == a*b exactly (2Prod theorem assumed)", "new_div: 3*2^-106 bound at full width (rests on the assumed theorem for Alg. 15)"], "assumed_lemmas": []},
+    "C02": {"undecided_clauses": ["new_div: 3*2^-106 bound at full width (rests on the assumed theorem for Alg. 15)"], "assumed_lemmas": []},
     "C03": {"undecided_clauses": ["Iterator::sum == left fold (CBMC fails on the iterator fold)"], "assumed_lemmas": ["error bound 2u^2 of Alg. 4 and 3u^2+13u^3 of Alg. 6 (Joldes-Muller-Popescu 2017, Coq: Muller-Rideau 2022)"]},
-    "C04": {"undecided_clauses": [], "assumed_lemmas": ["error bounds of Alg. 9 (2u^2) and Alg. 12 (<= 5u^2)", "2Prod: fma(a, b, -RN(ab)) == ab - RN(ab) exactly absent underflow"]},
+    "C04": {"undecided_clauses": [], "assumed_lemmas": ["error bounds of Alg. 9 (2u^2) and Alg. 12 (<= 5u^2)"]},
     "C05": {"undecided_clauses": ["16*2^-106 bound of the long division (f64/TwoFloat, TwoFloat/TwoFloat, /=, recip)", "x/x == 1 for all x (ground sample only)"], "assumed_lemmas": ["error bound 3u^2 of Alg. 15"]},
     "C06": {"undecided_clauses": [], "assumed_lemmas": ["L-lex (lexicographic order of valid pairs == order of exact values): L-bracket proved in thorough + monotonicity + transitivity on the reals (un-mechanised)"]},
     "C08": {"undecided_clauses": [], "assumed_lemmas": ["in quick: the five pair-formula lemmas (proved in thorough)"]},
